@@ -114,11 +114,11 @@ theorem wire_pushH (left : Bool) (args : List Bytes) : WireRes (Handler2.pushH l
   · wcall2
   · exact wire_errReply
 
-theorem wgood_pop_k (cnt : Int) (s : MState) (o : Out) :
+theorem wgood_pop_k (noCount : Bool) (s : MState) (o : Out) :
     WGood (match o with
           | .blist (v :: vs) =>
             let bs := (v :: vs).map (·.getD [])
-            if cnt = 1 then done s [.bulk (v.getD [])] else done s (bulkList bs)
+            if noCount then done s [.bulk (v.getD [])] else done s (bulkList bs)
           | _ => done s [.nullBulk]) := by
   split
   · dsimp only
